@@ -117,7 +117,20 @@ class C10(core.Check):
     def gen(self, seed, run, tier):
         rw = sub_rng(seed, self.id, run, "workload")
         rs = sub_rng(seed, self.id, run, "schedule")
-        val = [self.gen_value(rw, 1) for _ in range(rw.randint(1, 5))]
+        shape = rw.choice(["mixed", "mixed", "flat", "matrix", "ragged", "strings", "pairs"])
+        if shape == "mixed":
+            val = [self.gen_value(rw, 1) for _ in range(rw.randint(1, 5))]
+        elif shape == "flat":
+            val = [rw.randint(0, 9) for _ in range(rw.randint(1, 6))]
+        elif shape == "matrix":
+            c = rw.randint(1, 4)
+            val = [[rw.randint(0, 9) for _ in range(c)] for _ in range(rw.randint(1, 4))]
+        elif shape == "ragged":
+            val = [[rw.randint(0, 9) for _ in range(rw.randint(0, 4))] for _ in range(rw.randint(2, 5))]
+        elif shape == "strings":
+            val = [rw.choice(["a", "ab", "b1", "12", "a b", "ba"]) for _ in range(rw.randint(1, 5))]
+        else:
+            val = [[rw.randint(0, 9), rw.randint(0, 9)] for _ in range(rw.randint(1, 4))]
         rep = rw.choice(["eager", "eager", "lazy_list", "lazy_gen", "lazy_map", "part"])
         nested_lazy = rw.random() < 0.25
         place = sorted(set(rw.sample(["stack", "stack2", "a", "b", "reg", "ga", "input"], rw.randint(1, 3)) + ["stack"]))
@@ -208,6 +221,8 @@ class C10(core.Check):
 
         def snap(v, depth=0):
             """non-perturbing snapshot: nested lazies are rendered by identity"""
+            if depth > 12:
+                return ["deep"]  # a list that (now) contains itself, or absurd nesting
             if isinstance(v, LL):
                 r = by_id.get(id(v))
                 return ["L", refs.index(r) if r is not None else -1]
@@ -281,6 +296,23 @@ class C10(core.Check):
                 return [trunc(x) for x in v[:OBS_LIMIT]]
             return v
 
+        def resolve(model, depth=0):
+            """replace by-identity markers of nested lazy parts with what those parts are known to denote"""
+            if isinstance(model, list):
+                if len(model) == 2 and model[0] == "L" and isinstance(model[1], int):
+                    if model[1] < 0 or model[1] >= len(refs) or depth > 6:
+                        return None
+                    inner = classes.get(refs[model[1]].cls)
+                    return None if inner is None else resolve(inner, depth + 1)
+                out = []
+                for x in model:
+                    y = resolve(x, depth + 1)
+                    if y is None:
+                        return None
+                    out.append(y)
+                return out
+            return model
+
         def observe(r, culprit):
             try:
                 got = trunc(tm(r.obj))
@@ -289,7 +321,9 @@ class C10(core.Check):
             except Exception as e:
                 return "raised:" + type(e).__name__
             want = classes[r.cls]
-            if want is None or self.has_lazy(want):
+            if want is not None and self.has_lazy(want):
+                want = resolve(want)
+            if want is None:
                 classes[r.cls] = got
                 return None
             want = trunc(want)
@@ -328,26 +362,29 @@ class C10(core.Check):
 
         def guarded(fn):
             nonlocal steps
-            world.CLOCK.start(budget=max(1000, STEP_BUDGET - steps))
-            signal.setitimer(signal.ITIMER_REAL, 2.0)
             try:
-                with world.rec_limit():
-                    return fn(), None
-            except world.StepBudgetExceeded:
-                return None, "budget"
-            except world.ValueTooBig:
-                return None, "too-big"
-            except WallTimeout:
-                return None, "wall-timeout"
-            except SystemExit:
-                return None, "exit"
-            except RecursionError:
-                return None, "raised:RecursionError"
-            except Exception as e:
-                return None, "raised:" + type(e).__name__
-            finally:
+                world.CLOCK.start(budget=max(1000, STEP_BUDGET - steps))
+                signal.setitimer(signal.ITIMER_REAL, 2.0)
+                try:
+                    with world.rec_limit():
+                        return fn(), None
+                except world.StepBudgetExceeded:
+                    return None, "budget"
+                except world.ValueTooBig:
+                    return None, "too-big"
+                except SystemExit:
+                    return None, "exit"
+                except RecursionError:
+                    return None, "raised:RecursionError"
+                except Exception as e:
+                    return None, "raised:" + type(e).__name__
+                finally:
+                    signal.setitimer(signal.ITIMER_REAL, 0)
+                    steps += world.CLOCK.stop()
+            except WallTimeout:  # may fire anywhere above, including inside the handlers and the finally block
                 signal.setitimer(signal.ITIMER_REAL, 0)
-                steps += world.CLOCK.stop()
+                world.CLOCK.stop()
+                return None, "wall-timeout"
 
         def discard(reason):
             log.append(dict(discard=reason))
@@ -360,6 +397,16 @@ class C10(core.Check):
                 last_stmt = text
                 # "its own arguments if the caller kept them": everything on the stack is already registered
                 before_top = [x for x in w.stack[-3:]]
+                expect_top = None
+                if kind == "copy":
+                    if text == "¾":
+                        expect_top = [snap(x) for x in ctx.global_array]
+                    elif text == "W":
+                        expect_top = [snap(x) for x in w.stack]
+                    elif text == "\"" and len(w.stack) >= 2:
+                        expect_top = [snap(w.stack[-2]), snap(w.stack[-1])]
+                    elif text == "w" and len(w.stack) >= 1:
+                        expect_top = [snap(w.stack[-1])]
                 try:
                     code = w.compile_program(text)
                 except Exception as e:
@@ -389,6 +436,17 @@ class C10(core.Check):
                                     old = ro.cls
                                     ro.cls = rs_.cls
                                     classes.pop(old, None)
+                if expect_top is not None and '"?"' in core.jdump(expect_top):
+                    expect_top = None  # something that is not a Vyxal value (None, a Python object) is on the stack
+                if expect_top is not None and w.stack and isinstance(w.stack[-1], (list, LL)):
+                    rt = by_id.get(id(w.stack[-1]))
+                    if rt is not None and rt.born == eno:
+                        if rt.lazy:
+                            # what the copy op pushed is lazy: it must still denote what the source held at that moment
+                            classes[rt.cls] = expect_top
+                        elif rt.eager_snap != expect_top and not self.has_lazy(expect_top) and resolve(expect_top) is not None:
+                            return fail("changed", rt, f"{text} pushed something other than the value it copies",
+                                        rt.eager_snap, expect_top, text)
                 v = check_eager(text)
                 if v:
                     return v
